@@ -1,6 +1,7 @@
 (* C11 - Generated multi-client support is correct under all thread interleavings. *)
 From Coq Require Import List NArith Bool Arith.
-From Dznpy Require Import Sem.Concurrent Sem.MutexWrapped Proofs.ConcurrentFacts Proofs.MutexFacts.
+From Dznpy Require Sem.Selector.
+From Dznpy Require Import Sem.Concurrent Sem.MutexWrapped Proofs.ConcurrentFacts Proofs.MutexFacts Proofs.SeqRefinement.
 Import ListNotations.
 
 (* ---- the multi-client selector under every schedule of any number of client threads with arbitrary finite programs ---- *)
@@ -57,6 +58,18 @@ Theorem C11_refuted_by_non_holder_release :
     [LStart 0; LDisp; LLock (TClient 0); LFinish 0; LStart 1; LDisp; LLock (TClient 1); LFinish 1; LLock TDispatcher; LOut] = Some [None].
 Proof. exact nonholder_release_refutes. Qed.
 Print Assumptions C11_refuted_by_non_holder_release.
+
+(* What does hold: when client operations do not overlap (every forwarded call and its Select/Deselect complete before the
+   next operation starts) the interleaving model coincides with the selector model of C04 - same selection after every
+   operation, same recipient of every out-event - so C04's theorem "the holder receives the events in every history in which
+   only the holder releases" carries over to all such schedules. *)
+Theorem C11_sequential_schedules_agree_with_selector_model : forall nm use_ev out_ev ms s s' h,
+  quiescent s -> seq_run nm use_ev out_ev s ms = Some (s', h) ->
+  quiescent s' /\ sel_of nm s' = fst (Selector.run (sel_of nm s) h) /\
+  exists dl, delivered s' = delivered s ++ dl /\
+             map (option_map nm) dl = flat_map delivery_of (snd (Selector.run (sel_of nm s) h)).
+Proof. exact sequential_schedules_refine_selector. Qed.
+Print Assumptions C11_sequential_schedules_agree_with_selector_model.
 
 (* ---- the mutex-wrapped helper, for every history of any number of threads ---- *)
 
